@@ -6,6 +6,8 @@ import time
 
 VERIF = os.path.dirname(os.path.dirname(os.path.abspath(__file__)))
 KNOWN = os.path.join(VERIF, 'known_findings.json')
+# trial runs against seeded changes (tools/trymutant.sh) keep their evidence and replays out of /verif
+OUT = os.environ.get('VERIF_OUT', VERIF)
 
 
 def load_known():
@@ -36,7 +38,7 @@ class Outcome(object):
         self.machinery_errors = []
         self._known = [k for k in load_known() if k.get('property') == prop and k.get('status', 'open') == 'open']
         self._replay_n = 0
-        d = os.path.join(VERIF, 'replays', prop)
+        d = os.path.join(OUT, 'replays', prop)
         if os.path.isdir(d):
             for f in os.listdir(d):
                 if f.startswith(tier + '-'):
@@ -71,7 +73,7 @@ class Outcome(object):
             return False
         path = None
         if len(self.violations) < 25:
-            d = os.path.join(VERIF, 'replays', self.prop)
+            d = os.path.join(OUT, 'replays', self.prop)
             os.makedirs(d, exist_ok=True)
             self._replay_n += 1
             path = os.path.join(d, '%s-%d.json' % (self.tier, self._replay_n))
@@ -101,8 +103,8 @@ class Outcome(object):
             cov.update(extra_cov)
         evid = {'property_id': self.prop, 'tier': self.tier, 'seed': self.seed, 'level': level, 'coverage': cov,
                 'assumptions': self.assumptions, 'wall_s': round(wall, 2), 'violations': len(self.violations)}
-        os.makedirs(os.path.join(VERIF, 'evidence'), exist_ok=True)
-        with open(os.path.join(VERIF, 'evidence', self.prop + '.json'), 'w') as fh:
+        os.makedirs(os.path.join(OUT, 'evidence'), exist_ok=True)
+        with open(os.path.join(OUT, 'evidence', self.prop + '.json'), 'w') as fh:
             json.dump(evid, fh, indent=1, default=str)
         for d in self.drift[:10]:
             print('DRIFT property=%s %s' % (self.prop, d))
